@@ -170,3 +170,82 @@ Print Assumptions C08_measured_examples.
 Example C08_recursive_bounds : ltac:(let T := type of (conj R_bound_any_fuel tree_bound_any_fuel) in exact T).
 Proof. exact (conj R_bound_any_fuel tree_bound_any_fuel). Qed.
 Print Assumptions C08_recursive_bounds.
+
+(** ------------------------------------------------------------------
+    The same work bound for aligned PER (Per/PerCost*.v; an alignment is one step) ... *)
+From Asn1V Require Import Per.PerCost Per.PerCostProofs.
+(* imports: Per.PerImpl Per.UperCost Per.UperCostProofs Per.PerCost Per.PerCostProofs, Coq NArith *)
+Theorem C08_per_dec_cost_erases :
+  forall numeric e fuel t inp, fst (pdec_cost numeric e fuel t inp) = pdec_ty numeric e fuel t inp.
+Proof. exact pdec_cost_erases. Qed.
+Print Assumptions C08_per_dec_cost_erases.
+Theorem C08_per_decode_cost_erases :
+  forall numeric fuel e t data, fst (per_decode_cost numeric fuel e t data) = per_decode numeric fuel e t data.
+Proof. exact per_decode_cost_erases. Qed.
+Print Assumptions C08_per_decode_cost_erases.
+Theorem C08_per_dec_cost_bound :
+  forall numeric e fuel t inp,
+    (snd (pdec_cost numeric e fuel t inp) <= Kp e fuel t * (N.of_nat (length inp) + 1))%N.
+Proof. exact pdec_cost_bound. Qed.
+Print Assumptions C08_per_dec_cost_bound.
+Theorem C08_per_decode_cost_bound :
+  forall numeric fuel e t data,
+    (snd (per_decode_cost numeric fuel e t data) <= Kp e fuel t * (8 * N.of_nat (length data) + 1))%N.
+Proof. exact per_decode_cost_bound. Qed.
+Print Assumptions C08_per_decode_cost_bound.
+Theorem C08_per_dec_cost_bound_consumed :
+  forall numeric e fuel t inp v rest c,
+    pdec_cost numeric e fuel t inp = (Ok (v, rest), c) ->
+    (length rest <= length inp)%nat /\
+    (c <= ka (Kpabw e fuel t) + kb (Kpabw e fuel t) * N.of_nat (length inp - length rest))%N.
+Proof. exact pdec_cost_bound_consumed. Qed.
+Print Assumptions C08_per_dec_cost_bound_consumed.
+Theorem C08_per_Kp_fuel_stable :
+  forall e d t fuel, fits e d t = true -> (d <= fuel)%nat -> Kp e fuel t = Kp e d t.
+Proof. exact Kp_fuel_stable. Qed.
+Print Assumptions C08_per_Kp_fuel_stable.
+Theorem C08_per_dec_cost_bound_acyclic :
+  forall numeric e d t fuel inp, fits e d t = true -> (d <= fuel)%nat ->
+    (snd (pdec_cost numeric e fuel t inp) <= Kp e d t * (N.of_nat (length inp) + 1))%N.
+Proof. exact pdec_cost_bound_acyclic. Qed.
+Print Assumptions C08_per_dec_cost_bound_acyclic.
+
+(** ... and for the BER and DER decoder models (Ber/BerCost*.v): one step per decode call (including those that answer
+    TAG_MISMATCH), per ber.py primitive and per loop iteration (member tried in a pass, pass of the SET retry loop,
+    SEQUENCE OF element, string segment).  The constant is quadratic in the number of SET components (the retry
+    loop) - real but type-bounded; strings close by a credit argument independent of segment nesting. *)
+From Asn1V Require Import Ber.Header Ber.BerCommon Ber.BerImpl Ber.DerImpl Ber.BerCost Ber.BerCostProofs.
+Theorem C08_ber_decode_cost_erases :
+  forall numeric fuel e t bs, fst (ber_decode_cost numeric fuel e t bs) = ber_decode numeric fuel e t bs.
+Proof. exact ber_decode_cost_erases. Qed.
+Print Assumptions C08_ber_decode_cost_erases.
+Theorem C08_der_decode_cost_erases :
+  forall numeric fuel e t bs, fst (der_decode_cost numeric fuel e t bs) = der_decode numeric fuel e t bs.
+Proof. exact der_decode_cost_erases. Qed.
+Print Assumptions C08_der_decode_cost_erases.
+Theorem C08_ber_decode_cost_bound :
+  forall numeric fuel e t bs, bytes_ok bs ->
+    (snd (ber_decode_cost numeric fuel e t bs) <= Kber e fuel t * (N.of_nat (length bs) + 1))%N.
+Proof. exact ber_decode_cost_bound. Qed.
+Print Assumptions C08_ber_decode_cost_bound.
+Theorem C08_der_decode_cost_bound :
+  forall numeric fuel e t bs, bytes_ok bs ->
+    (snd (der_decode_cost numeric fuel e t bs) <= Kber e fuel t * (N.of_nat (length bs) + 1))%N.
+Proof. exact der_decode_cost_bound. Qed.
+Print Assumptions C08_der_decode_cost_bound.
+Theorem C08_ber_dec_cost_bound_consumed :
+  forall der numeric e fuel ovr t data off v en c, bytes_ok data ->
+    c_dec der numeric e fuel ovr t data off = (Ok (DVal v, en), c) ->
+    (off + 1 <= en <= length data)%nat /\
+    (c <= ba (Kb e fuel t) + bb (Kb e fuel t) * N.of_nat (en - off))%N.
+Proof. exact ber_dec_cost_bound_consumed. Qed.
+Print Assumptions C08_ber_dec_cost_bound_consumed.
+Theorem C08_ber_Kber_fuel_stable :
+  forall e d t fuel, fitsb e d t = true -> (d <= fuel)%nat -> Kber e fuel t = Kber e d t.
+Proof. exact Kber_fuel_stable. Qed.
+Print Assumptions C08_ber_Kber_fuel_stable.
+Theorem C08_ber_decode_cost_bound_acyclic :
+  forall numeric e d t fuel bs, fitsb e d t = true -> (d <= fuel)%nat -> bytes_ok bs ->
+    (snd (ber_decode_cost numeric fuel e t bs) <= Kber e d t * (N.of_nat (length bs) + 1))%N.
+Proof. exact ber_decode_cost_bound_acyclic. Qed.
+Print Assumptions C08_ber_decode_cost_bound_acyclic.
